@@ -419,7 +419,13 @@ fn convert_prom_to_arrow(req: &WriteRequest) -> Result<RecordBatch> {
 
             // Detect value type and route to appropriate column
             let val = sample.value;
-            if val.is_finite() && val.fract() == 0.0 {
+            // i64 holds integral values in [-2^63, 2^63); `as i64` saturates outside of it
+            // (2^63 itself would be stored as 2^63 - 1)
+            if val.is_finite()
+                && val.fract() == 0.0
+                && val >= -9_223_372_036_854_775_808.0
+                && val < 9_223_372_036_854_775_808.0
+            {
                 // Value is an integer (no fractional part)
                 let int_val = val as i64;
 
